@@ -127,13 +127,10 @@ Definition eval_condition (m : mode) (U : user) (r : role) (corofn_first : bool)
 (** ** [_create_violation_error] *)
 Definition create_violation_error (U : user) (r : role) (c : contract) (resolved : dict) : M exn :=
   let reeval : M unit :=
-      (* the violated lambda is re-evaluated to build the message; a parameter the call does not
-         provide is unknown to the re-evaluator, which then skips the enclosing call *)
+      (* the violated lambda is re-evaluated to build the message (a parameter the call does not
+         provide has a default value - the call would have failed otherwise - and the re-evaluator
+         knows the defaults) *)
       if clambda c
-         && forallb (fun a => match dict_get resolved a with
-                              | None => false
-                              | Some _ => true
-                              end) (cargs c)
       then match select (cargs c) (cmandatory c) resolved with
            | Some kw => emit (EvCond r (cid c) kw)
            | None => ret tt
